@@ -174,6 +174,27 @@ def check_unevaluable(ctx, doc, toks, why, tag=None):
         if not isinstance(o.exc, jsonpath.JSONPointerResolutionError):
             ctx.violation("unevaluable-pointer-raised-foreign:%s" % type(o.exc).__name__, dict(case, unicode_escape=ue), {"pointer": text, "error": o.desc()})
             return
+        # defaults that are containers shaped like the rest of the pointer (the default is what comes back, itself - never
+        # something found inside it)
+        for k in range(len(toks)):
+            D = "leaf-of-the-default"
+            for t in reversed(toks[k:]):
+                D = [D] * (int(t) + 1) if rp.CANON_INDEX.match(t) and int(t) < 5 else {t: D}
+            dd = impl.call(p.resolve, doc, default=D)
+            ctx.count("container_defaults_shaped_like_the_pointer's_tail")
+            if not dd.ok or dd.value is not D:
+                ctx.violation("default-not-returned-as-such", dict(case, unicode_escape=ue), {"pointer": text, "default": repr(D)[:120], "got": dd.desc() if not dd.ok else repr(dd.value)[:120]})
+                return
+        # the same pointer with more tokens after the one that cannot be evaluated, and defaults shaped like those tokens
+        for tail in (["tail"], ["tail", "0"], ["0", "x"]):
+            D = "leaf-of-the-default"
+            for t in reversed(tail):
+                D = [D] if t == "0" else {t: D}
+            dd = impl.call(lambda: JSONPointer(rp.encode(list(toks) + tail), unicode_escape=ue).resolve(doc, default=D))
+            ctx.count("container_defaults_shaped_like_the_pointer's_tail")
+            if not dd.ok or dd.value is not D:
+                ctx.violation("default-not-returned-as-such", dict(case, unicode_escape=ue), {"pointer": rp.encode(list(toks) + tail), "default": repr(D)[:120], "got": dd.desc() if not dd.ok else repr(dd.value)[:120]})
+                return
         d = impl.call(p.resolve, doc, default="DEFAULT")
         d2 = impl.call(lambda: jsonpath.pointer.resolve(text, doc, default="DEFAULT", unicode_escape=ue))
         if not d.ok or d.value != "DEFAULT" or not d2.ok or d2.value != "DEFAULT":
